@@ -794,7 +794,14 @@ def transition_lemmas(ctx, fo):
                     continue
                 atoms = got.atoms()
                 if not any(a == 'c' or 'c)' in a or '(c' in a or a.startswith('c.') or ', c' in a for a in atoms):
-                    continue        # the default arm of a nested match (e.g. Some(_) => 0.) does not involve the digit
+                    # the default arm of a nested match (e.g. Some(_) => 0.) does not involve the digit: with the only operator the
+                    # character steps ever record ('/') it is dead code — unless this path is taken WITH a pending '/': then a
+                    # digit that follows a '/' is dropped
+                    if any((c[0] == 'cond' and c[2] is True and '47' in repr(c[1])) or (c[0] == 'switch' and c[2] == 47) for c in o.pc):
+                        rep.fail('R3', 'digit-step:after-slash', where(fo, some_t),
+                                 'on a path taken with a pending \'/\' the digit does not enter the constant (it becomes %s): '
+                                 'for some digits the fraction is dropped' % got.canon()[:80])
+                    continue
                 const_p = const_p or cp
                 if cp != const_p:
                     rep.fail('R3', 'digit-step:one-constant-cell', where(fo, some_t), 'digits write two different places: %s, %s' % (const_p, cp))
